@@ -168,6 +168,29 @@ def mixed(xs: list[fp.Real], x: fp.Real) -> fp.Real:
     return o
 
 
+@fp.fpy(ctx=fp.FP64)
+def _ir_a(x: fp.Real, y: fp.Real, z: fp.Real) -> fp.Real:
+    with fp.REAL:
+        t = (x * x) + (y * y)
+    u = t * 121
+    with fp.REAL:
+        v = abs(z * z) - x
+    if u > 122:
+        with fp.REAL:
+            w = (u * y) + (v * z)
+        u = w + 123
+    return u + v
+
+
+def _pin(func, n):
+    from fpy2.strategies import monomorphize
+    from fpy2.types import RealType
+    return monomorphize(func, fp.FP64, [RealType(fp.FP32)] * n)
+
+
+ir_a = _pin(_ir_a, 3)     # pinned formats: what `insert_round` needs to find its sites
+
+
 ROOTS = ['loops_a', 'loops_b', 'odd_trip', 'nest_trip', 'calls_a', 'calls_b', 'rounds_a', 'rounds_b', 'mixed']
 
 
@@ -264,3 +287,4 @@ def rules():
 
 ROOTS.append('rw_a')
 ROOTS.append('rw_b')
+ROOTS.append('ir_a')
